@@ -76,9 +76,20 @@ class _RedisConsumer(ConsumerT):
         await asyncio.gather(*rejects)
 
     async def consume(self) -> tuple[RoutingKeyT, str, ParametersT]:
-        msg = await self.queue.get()
-        self.broker._unsettled[msg[0].id_] = (self, msg[0])
-        return msg
+        while True:
+            msg = await self.queue.get()
+            self.broker._unsettled[msg[0].id_] = (self, msg[0])
+            # the message was alive when it was fetched, but its time-to-live may have run out
+            # while it waited in the local buffer (e.g. while consumption was paused)
+            if msg[2].is_overdue and self.category == MessageCategory.NORMAL:
+                nack = asyncio.ensure_future(self.broker.nack(msg[0]))
+                try:
+                    await asyncio.shield(nack)
+                except asyncio.CancelledError:
+                    await nack  # never abandon the message half-way
+                    raise
+                continue
+            return msg
 
     async def backgroud_consume(self) -> None:
         while True:
